@@ -23,7 +23,9 @@ from ..common import Result, Violation
 KINDS = ["new_tg", "new_bt", "old_tg", "none", "new_unann", "dataclass", "method", "classmethod", "gen", "coro", "recurse"]
 EXITS = ["return", "raise_exc", "raise_base", "raise_kbd", "raise_sysexit", "raise_genexit", "bad_args", "bad_return", "nonbinding"]
 CTX_EXITS = ["return", "raise_exc", "raise_base", "raise_genexit"]
-PRE = [None, ["check", "a", 2], ["check", "b", 2]]
+# (the last entry is a pair: a check that fails in a typechecked callee frame (a=3 there), i.e. a
+# rollback, followed by a fresh binding - both before the nested compound)
+PRE = [None, ["check", "a", 2], ["check", "b", 2], [["check", "a", 2], ["check", "b", 1]]]
 POST = [None, ["check", "a", 2], ["sym"]]
 ATOMS = [None, ["check", "a", 1], ["check", "a", 2], ["sym"]]
 
@@ -72,10 +74,12 @@ def programs(tier, depth, outer=None):
             if d == depth and outer is not None and ci not in outer:
                 continue
             for body in bodies(d - 1):
-                for pre in PRE:
+                for pre in (PRE if tier == "thorough" else [PRE[0], PRE[1], PRE[3]]):
                     for post in POST:
                         prog = []
-                        if pre is not None:
+                        if pre is not None and pre and isinstance(pre[0], list):
+                            prog.extend(pre)
+                        elif pre is not None:
                             prog.append(pre)
                         prog.append(c + [body])
                         if post is not None:
